@@ -6,14 +6,16 @@ EXTENDS Metrics, TLC
 CONSTANTS MaxCalls
 
 Keys == {"K1", "K2"}
-Vars == {"k1c1", "k1c2", "k1l1", "k1l2", "k2c1", "k2c2", "k2l1", "k2l2"}
-KeyOf == [v \in Vars |-> IF v \in {"k1c1", "k1c2", "k1l1", "k1l2"} THEN "K1" ELSE "K2"]
-SlotOf == [v \in Vars |-> CASE v \in {"k1c1", "k1c2"} -> "K1c" [] v \in {"k1l1", "k1l2"} -> "K1l"
+Vars == {"k1c1", "k1c2", "k1l1", "k1l2", "k1o1", "k2c1", "k2c2", "k2l1", "k2l2"}
+KeyOf == [v \in Vars |-> IF v \in {"k1c1", "k1c2", "k1l1", "k1l2", "k1o1"} THEN "K1" ELSE "K2"]
+SlotOf == [v \in Vars |-> CASE v \in {"k1c1", "k1c2"} -> "K1c" [] v \in {"k1l1", "k1l2"} -> "K1l" [] v = "k1o1" -> "K1o"
                             [] v \in {"k2c1", "k2c2"} -> "K2c" [] v \in {"k2l1", "k2l2"} -> "K2l"]
-Slots == {"K1c", "K1l", "K2c", "K2l"}
-\* variable lists a call may name: 1-2 variables of one key at pairwise different positions
+Slots == {"K1c", "K1l", "K1o", "K2c", "K2l"}
+\* variable lists a call may name: 1-3 variables of one key at pairwise different positions
 Lists(k) == {<<v>> : v \in {x \in Vars : KeyOf[x] = k}}
               \cup {<<v, w>> : <<v, w>> \in {t \in Vars \X Vars : KeyOf[t[1]] = k /\ KeyOf[t[2]] = k /\ SlotOf[t[1]] # SlotOf[t[2]]}}
+              \cup {<<u, v, w>> : <<u, v, w>> \in {t \in Vars \X Vars \X Vars : KeyOf[t[1]] = k /\ KeyOf[t[2]] = k /\ KeyOf[t[3]] = k
+                                                         /\ Cardinality({SlotOf[t[1]], SlotOf[t[2]], SlotOf[t[3]]}) = 3}}
 
 VARIABLES reg, latest, ncalls, lastRefused, prevReg, lastCall
 vars == <<reg, latest, ncalls, lastRefused, prevReg, lastCall>>
@@ -46,8 +48,8 @@ RefusalKeeps == lastRefused => \E j \in DOMAIN lastCall.vs :
    /\ Occupant(reg, SlotOf, lastCall.k, s) = Occupant(prevReg, SlotOf, lastCall.k, s)
    /\ Occupant(reg, SlotOf, lastCall.k, s) # {}
 \* batching: a two-variable call equals the two single calls
-BatchingOK == \A k \in Keys, ow \in BOOLEAN : \A vs \in Lists(k) : Len(vs) = 2 =>
+BatchingOK == \A k \in Keys, ow \in BOOLEAN : \A vs \in Lists(k) : Len(vs) >= 2 =>
    LET one == SetMetricsSpec(reg, SlotOf, k, <<vs[1]>>, ow) IN
    SetMetricsSpec(reg, SlotOf, k, vs, ow) =
-     (IF one.refused THEN one ELSE SetMetricsSpec(one.reg, SlotOf, k, <<vs[2]>>, ow))
+     (IF one.refused THEN one ELSE SetMetricsSpec(one.reg, SlotOf, k, Tail(vs), ow))
 =============================================================================
